@@ -274,10 +274,10 @@ class Cli:
         self.stats[k] = self.stats.get(k, 0) + 1
 
     def v(self, clause, detail, op_index, sig=None):
-        from gen.formulas import features
+        from gen.formulas import features_with_grammar
 
         d = {"property": "C19", "clause": clause, "op_index": op_index, "detail": detail[:500],
-             "features": sorted({ft for f in self.plan["formulas"] for ft in features(f)})}
+             "features": sorted({ft for f in self.plan["formulas"] for ft in features_with_grammar(f, self.g)})}
         d["signature"] = sig or {"type": "Oracle", "site": clause, "message": "", "raw": ""}
         self.viol.append(d)
 
@@ -499,7 +499,6 @@ class Cli:
             if sat is False:
                 self.v("solve_output_violates_constraint", f"solve printed {text[:120]!r}; constraints {self.plan['formula_texts']}", op_index,
                        {"type": "Oracle", "site": "solve_output_violates_constraint", "message": "", "raw": ""})
-                self.viol[-1]["features"] = sorted({ft for f in self.plan["formulas"] for ft in __import__("gen.formulas", fromlist=["features"]).features(f)})
                 continue
             self.solutions.append(text)
             # every printed input is accepted by `isla check`
